@@ -5,7 +5,8 @@
    Every statement quantifies over ALL byte strings (lists of Z in 0..255), all bit strings,
    all valid derived tables. *)
 From Coq Require Import List ZArith Bool.
-From LJT Require Import gen.GenLimits model.Huff model.DMarkers model.DFastPath model.DProg model.DStream proofs.DFastPathProofs proofs.DProgProofs proofs.DStreamProofs
+From LJT Require Import gen.GenLimits model.Huff model.DMarkers model.DFastPath model.DProg model.DStream model.DCoef model.DArith proofs.DFastPathProofs proofs.DProgProofs proofs.DStreamProofs
+  proofs.DCacheProofs proofs.DCoefProofs proofs.DArithProofs
   proofs.DMarkersProofs proofs.DMarkersScanProofs proofs.DMarkersBlockProofs proofs.DMarkersFastProofs proofs.DMarkersTop.
 Import ListNotations.
 Local Open Scope Z_scope.
@@ -209,6 +210,68 @@ Theorem C01_scan_time_bound : forall ec limit data, ec_mono ec -> 0 <= limit -> 
   end.
 Proof. exact scan_time_bound_. Qed.
 Print Assumptions C01_scan_time_bound.
+
+(* (5c) what is fixed at SOF stays fixed: after an accepted SOF no marker routine changes process flags,
+   precision, dimensions, component count or any component's id / sampling factors / Tq (a second SOF is
+   JERR_SOF_DUPLICATE, get_sos only rewrites table selectors), through any number of markers *)
+Theorem C01_sof_geometry_fixed : forall fuel h s, hdr_ok h -> inv s ->
+  match read_markers fuel h s with
+  | Done r s' => saw_SOF h = true -> geom (hdr_of r) = geom h /\ saw_SOF (hdr_of r) = true
+  | _ => True
+  end.
+Proof. exact read_markers_keeps. Qed.
+Print Assumptions C01_sof_geometry_fixed.
+
+(* ... therefore the values initial_setup computed at the first SOS (cached by the C) are valid for every later
+   scan, and the stream model WITH the cache (initial_setup once, per_scan_setup + latch_quant_tables with its
+   per-component memo at every SOS, JERR_EOI_EXPECTED for an unexpected second scan) has the same bounds *)
+Theorem C01_setup_cache_valid :
+  (forall h1 h' su, accepted_header h1 su -> setup_dims h1 su -> geom h' = geom h1 ->
+     hdr_ok h' -> saw_SOF h' = true -> scan_ok (h_frame h') (h_scan h') -> accepted_header h' su /\ setup_dims h' su) /\
+  (forall ec limit data, ec_mono ec -> 0 <= limit -> Forall byte data ->
+     match decode_stream3 ec limit (Nat.div2 (length data) + 3) hdr0 None [] 0 0 0 (io0 data true) with
+     | SDone h n w a s' =>
+         0 <= n <= limit /\ n <= Z.of_nat (length data) / 2 + 3 /\ 0 <= a <= L_JPEG_MAX_DIMENSION * L_JPEG_MAX_DIMENSION /\
+         w <= n * (L_DCTSIZE2 * L_D_MAX_BLOCKS_IN_MCU * a) /\ trace_ok s'
+     | SSusp => False
+     | SFail e n w s' => e <> E_OUT_OF_FUEL /\ trace_ok s'
+     | SLimit n w a s' => n = limit /\ w <= n * (L_DCTSIZE2 * L_D_MAX_BLOCKS_IN_MCU * a) /\ trace_ok s'
+     end).
+Proof. exact (conj cache_valid_ cached_stream_bound_). Qed.
+Print Assumptions C01_setup_cache_valid.
+
+(* (5d) coefficient controller (jdcoefct.c): the virtual block arrays are sized from header fields only
+   (jround_up(width_in_blocks, h) x jround_up(height_in_blocks, v)); for every geometry an accepted header can
+   have, every iMCU row, every MCU column incl. the last partial one, interleaved or single-component scan,
+   the row window, the row inside the window and the block column used by consume_data / decompress_onepass
+   are inside the array; MCU_buffer[blkn] stays below D_MAX_BLOCKS_IN_MCU *)
+Theorem C01_coef_index_safe :
+  (forall W H mh mv, 1 <= W -> 1 <= H -> 1 <= mh -> 1 <= mv -> forall h v, 1 <= h <= mh -> 1 <= v <= mv ->
+     (forall r, 0 <= r < total_iMCU_rows H mv -> 0 <= r * v /\ window_last_row r v < varr_rows H v mv) /\
+     (forall m x y, 0 <= m < interleaved_mcus_per_row W mh -> 0 <= x < h -> 0 <= y < v ->
+        0 <= y + 0 < v /\ 0 <= interleaved_col m h x < varr_cols W h mh) /\
+     (forall m yoff, 0 <= m < wib W h mh -> 0 <= yoff < v -> 0 <= 0 + yoff < v /\ 0 <= m < varr_cols W h mh)) /\
+  (forall comps, Forall (fun c => 1 <= fst c /\ 1 <= snd c) comps -> mcu_blocks comps <= L_D_MAX_BLOCKS_IN_MCU ->
+     forall pre c post, comps = pre ++ c :: post -> forall y x, 0 <= y < snd c -> 0 <= x < fst c ->
+     0 <= mcu_blocks pre + y * fst c + x < L_D_MAX_BLOCKS_IN_MCU).
+Proof. exact (conj coef_index_safe_ mcu_buffer_index_safe_). Qed.
+Print Assumptions C01_coef_index_safe.
+
+(* (4f) arithmetic decoder (jdarith.c decode_mcu): for EVERY sequence of binary decisions (hence every byte
+   string, incl. the zero data after a marker), every conditioning value: all statistics-bin offsets are inside
+   DC_STAT_BINS / AC_STAT_BINS, k <= 63 at natural_order[k], dc_context stays in {0,4,8,12,16}, every loop ends
+   (no fuel needed) -- and jpeg_aritab keeps arith_decode well defined (Qe in 1..0x7FFF, successor states < 114,
+   a positive A renormalises within 15 doublings) *)
+Theorem C01_arith_index_safe :
+  (forall (d : nat -> bool) (kle : Z -> bool) n ctx small large, ctx_ok ctx ->
+     match dc_decode d n ctx small large [] with
+     | DOk _ ctx' tr => ctx_ok ctx' /\ tr_ok tr | DErr _ tr => tr_ok tr | DFuel _ => False end /\
+     match ac_decode 64 d kle n 1 [] with
+     | DOk _ k tr => 1 <= k <= 64 /\ tr_ok tr | DErr _ tr => tr_ok tr | DFuel _ => False end) /\
+  aritab_ok = true /\
+  (forall a, 1 <= a < 32768 -> exists n, (n <= 15)%nat /\ 32768 <= a * 2 ^ Z.of_nat n < 65536).
+Proof. exact (conj arith_index_safe_ (conj aritab_ok_true renorm_terminates)). Qed.
+Print Assumptions C01_arith_index_safe.
 
 (* (6) The full property is about the C text: an implementation run on a byte string under a
    configuration.  It stays a definition; what is proved is its model-level part. *)
